@@ -35,6 +35,27 @@ def peers():
                     cli_enc=['aes256-ctr', '3des-cbc'], cli_mac=['hmac-sha1']))
     out.append(dict(kex=['curve25519-sha256'], key=['ssh-ed25519'], enc=['aes128-ctr'], mac=['hmac-sha2-256'], cli_enc=[''], cli_mac=['hmac-md5', 'hmac-sha2-256']))
     return out
+import os
+TIER = os.environ.get('VERIF_TIER', 'quick')
+def random_peers(db_only=False, count=None):
+    """seeded random peers: 1..6 names per category drawn from the database (10%%: an unknown name; 10%%: a repeated name), any order"""
+    r = random.Random(777)
+    out = []
+    for i in range(count if count is not None else (12 if TIER == 'quick' else 120)):
+        p = {}
+        for c in ALL:
+            k = r.randrange(1, 7)
+            l = [r.choice(ALL[c]) for _ in range(k)]
+            if not db_only:
+                if r.random() < 0.1:
+                    l.insert(r.randrange(len(l) + 1), 'unknown-%%s-%%d@example.com' %% (c, i))
+                if r.random() < 0.1:
+                    l.append(l[0])
+            else:
+                l = list(dict.fromkeys(l))
+            p[c] = l
+        out.append(p)
+    return out
 cases, failures = 0, []
 per = {}
 def fail(inp, got, want, cls='x'):
@@ -52,7 +73,7 @@ def notes_of(finds, cat, name):
 C01 = COMMON + r'''
 def nonblank(l):
     return [x for x in l if x.strip() != '']
-for pi, p in enumerate(peers()):
+for pi, p in enumerate(peers() + random_peers()):
     for role in ('server', 'client'):
         for mode in ('plain', 'batch', 'verbose', 'json'):
             cases += 1
@@ -156,7 +177,7 @@ for c in ('kex', 'key', 'enc', 'mac'):
             if l != t:
                 fail(inp, {'lookup': l}, {'text': t}, 'lookup')
 # the same names among neighbours, in other positions, audited as a client
-for pi, p in enumerate(peers()[:-6]):
+for pi, p in enumerate(peers()[:-6] + random_peers(db_only=True)):
     for role in ('server', 'client'):
         q = {c: list(reversed(p[c])) if role == 'client' else list(p[c]) for c in p}
         cases += 1
@@ -174,7 +195,7 @@ def full(d):
 ctx = [dict(kex=['curve25519-sha256'], key=['ssh-ed25519'], enc=['aes128-ctr', 'chacha20-poly1305@openssh.com', 'aes256-cbc', 'aes256-gcm@openssh.com'], mac=['hmac-sha2-256', 'hmac-sha2-256-etm@openssh.com', 'umac-128-etm@openssh.com']),
        dict(kex=['curve25519-sha256', 'kex-strict-s-v00@openssh.com'], key=['ssh-ed25519'], enc=['aes128-ctr', 'chacha20-poly1305@openssh.com', '3des-cbc'], mac=['hmac-sha2-512-etm@openssh.com', 'hmac-sha1']),
        dict(kex=['diffie-hellman-group14-sha256', 'curve25519-sha256'], key=['rsa-sha2-512', 'ssh-ed25519'], enc=['aes256-ctr', 'aes128-ctr', 'chacha20-poly1305@openssh.com'], mac=['hmac-sha2-256'])]
-for pi, p in enumerate(ctx + peers()[:4]):
+for pi, p in enumerate(ctx + peers()[:4] + random_peers(db_only=True, count=(6 if TIER == 'quick' else 60))):
     ref_t, ref_j = render(p)
     for how in ('reversed', 'rotated'):
         cases += 1
@@ -216,7 +237,7 @@ def json_findings(doc):
     return sorted(set(out))
 digest = hashlib.sha256()
 sel = peers()
-sel = sel[:4] + sel[-3:]
+sel = sel[:4] + sel[-3:] + random_peers(count=(3 if TIER == 'quick' else 30))
 for pi, p in enumerate(sel):
     def run(**kw):
         kex = H.make_kex(p['kex'], p['key'], p['enc'], p['mac'])
